@@ -60,6 +60,9 @@ class ZeroconfManager:
         """Close the Zeroconf connection."""
         if not self._created or not self._aiozc:
             return
-        await self._aiozc.async_close()
+        # Forget the instance before awaiting: if the close is cancelled
+        # half way the instance must not be handed out or closed again.
+        aiozc = self._aiozc
         self._aiozc = None
         self._created = False
+        await aiozc.async_close()
